@@ -257,6 +257,7 @@ def _get_object_shape_id(
     links_props: Optional[list[bool]] = None,
     links: Optional[list[bool]] = None,
     has_implicit_fields: bool = False,
+    sources: Optional[list[uuid.UUID]] = None,
 ) -> uuid.UUID:
     parts = [coll_type]
     parts.append(":".join(map(str, subtypes)))
@@ -266,6 +267,10 @@ def _get_object_shape_id(
         parts.append(":".join(chr(c._value_) for c in cardinalities))
     string_id = "\x00".join(parts)
     string_id += f'{has_implicit_fields!r};{links_props!r};{links!r}'
+    if sources:
+        # Polymorphic shapes (`T {[IS A].x}` vs `T {[IS B].x}`) differ only
+        # in the source types of their elements.
+        string_id += f';{":".join(map(str, sources))}'
     return uuidgen.uuid5(s_obj.TYPE_ID_NAMESPACE, string_id)
 
 
@@ -596,6 +601,10 @@ def _describe_object_shape(
         links_props=link_props,
         links=links,
         has_implicit_fields=implicit_id,
+        # ids of shapes without polymorphic elements stay what they were
+        sources=(
+            [s.id for s in sources] if any(s != mt for s in sources) else None
+        ),
     )
 
     if type_id in ctx.uuid_to_pos:
